@@ -243,7 +243,13 @@ func (f *FibStrategyHashTable) FindNextHopsEnc(name enc.Name) []*FibNextHopEntry
 	for pfx := len(entry.name); pfx >= 0; pfx-- {
 		val, ok := f.realTable[prefixHash[pfx]]
 		if ok && len(val.nexthops) > 0 {
-			return val.nexthops
+			// Return a copy: the table's slice and entries are modified in
+			// place after the lock is released
+			nexthops := make([]*FibNextHopEntry, len(val.nexthops))
+			for i, nh := range val.nexthops {
+				nexthops[i] = &FibNextHopEntry{Nexthop: nh.Nexthop, Cost: nh.Cost}
+			}
+			return nexthops
 		}
 	}
 
